@@ -340,6 +340,8 @@ class HeapInterp:
         if isinstance(st, ast.Assign) and len(st.targets) == 1 and isinstance(st.targets[0], ast.Name):
             target, value = st.targets[0].id, st.value
         elif isinstance(st, ast.If):
+            if self._walrus_polarity(st.test) is None:
+                return None
             for n in ast.walk(st.test):
                 if isinstance(n, ast.NamedExpr):
                     target, value = n.target.id, n.value
@@ -373,6 +375,22 @@ class HeapInterp:
             cases.append({target: NONE(), "__case__": True})
         return cases
 
+    @staticmethod
+    def _walrus_polarity(test) -> Optional[bool]:
+        """True when the test holds for a found row (`(k := T.get(x))`, `... is not None`), False when it holds for no row
+        (`... is None`, `not (...)`); None for any other shape"""
+        if isinstance(test, ast.NamedExpr):
+            return True
+        if isinstance(test, ast.UnaryOp) and isinstance(test.op, ast.Not) and isinstance(test.operand, ast.NamedExpr):
+            return False
+        if isinstance(test, ast.Compare) and len(test.ops) == 1 and isinstance(test.left, ast.NamedExpr) \
+                and isinstance(test.comparators[0], ast.Constant) and test.comparators[0].value is None:
+            if isinstance(test.ops[0], (ast.IsNot, ast.NotEq)):
+                return True
+            if isinstance(test.ops[0], (ast.Is, ast.Eq)):
+                return False
+        return None
+
     def stmt(self, st, env, fr, pc, _case=None) -> bool:
         fi = fr.fi
         if _case is not None:
@@ -384,6 +402,8 @@ class HeapInterp:
                 tgt = next((n.target.id for n in ast.walk(st.test) if isinstance(n, ast.NamedExpr)), None)
                 v = env.get(tgt)
                 truthy = v is not None and v.kind != "none"
+                if not self._walrus_polarity(st.test):
+                    truthy = not truthy
                 body = st.body if truthy else st.orelse
                 return self.block(body, env, fr, pc)
         if isinstance(st, ast.Expr):
